@@ -10,7 +10,8 @@ Local Open Scope N_scope.
 Inductive c20case :=
 | CRender (id : list N) (s : list N) (pat : bool)
 | CParse (s : list N) (ok : bool) (id : list N) (pat : bool)
-| CHash (ns : list N) (ins : list (list N)) (id : list N).
+| CHash (ns : list N) (ins : list (list N)) (id : list N)
+| CEmit (pat : list N).   (* a validation pattern the compiler emitted for a key:id62 field *)
 
 Definition model_pattern (s : list N) : bool :=
   match parse_pattern Id62Gen.pattern_string with
@@ -33,4 +34,5 @@ Definition c20_check (c : c20case) : bool :=
       | _ => false
       end
   | CHash ns ins id => nlist_eqb (new_hash ns ins) id
+  | CEmit pat => nlist_eqb pat Id62Gen.pattern_string
   end.
